@@ -432,3 +432,36 @@ def std_plan(prop, tier, seed, quick, thorough, shards=NCPU, **extra):
         spec.update(extra)
         specs.append(spec)
     return specs
+
+
+def repo_tests_under_contracts(contract_names, test_paths, rec, case,
+                               timeout=1500):
+    '''Run a part of the repository's own test suite with the runtime
+    contracts switched on (thorough tiers).  A test that fails *because a
+    contract fired* is a violation; other failures are not this monitor's
+    business (they are compared with nothing here).'''
+    env = child_env(0)
+    env['VF_CONTRACTS'] = ','.join(contract_names)
+    cmd = [PY, '-m', 'pytest', '-q', '-p', 'no:cacheprovider', '-p',
+           'vf.pytest_contracts', '-x', '--timeout=900', '-rf'] + \
+        [os.path.join(REPO, p) for p in test_paths]
+    try:
+        out = subprocess.run(cmd, cwd=REPO, env=env, capture_output=True,
+                             text=True, timeout=timeout, check=False)
+    except subprocess.TimeoutExpired:
+        rec.count('repo_tests_inconclusive')
+        return
+    text = out.stdout + out.stderr
+    rec.count('repo_test_runs_under_contracts')
+    evals = [ln for ln in text.splitlines()
+             if ln.startswith('VF_CONTRACT_EVALS')]
+    rec.note('repo_tests_contract_evaluations', evals[-1] if evals else '')
+    summary = [ln for ln in text.splitlines() if ' passed' in ln
+               or ' failed' in ln]
+    rec.note('repo_tests_summary', summary[-1] if summary else text[-300:])
+    if 'InvariantBroken' in text:
+        where = [ln for ln in text.splitlines()
+                 if 'InvariantBroken' in ln or ln.startswith('FAILED')][:6]
+        rec.violation('invariant-broken-in-the-repository-tests-'
+                      + '+'.join(contract_names), ' / '.join(where)[:900],
+                      case)
